@@ -1,5 +1,5 @@
 (* XBW dictionary: exported theorems (statements in full), assumptions, and satisfiability examples. *)
-From LibCSD Require Import Base Bytes BitRGDefs Spec SpecProofs XBWDefs XBWProofs XBWApiProofs.
+From LibCSD Require Import Base Bytes BitRGDefs Spec SpecProofs XBWDefs XBWProofs XBWApiProofs XBWFullProofs.
 Require Import Sorted Permutation.
 Local Open Scope N_scope.
 
@@ -123,3 +123,136 @@ Proof. vm_compute. auto. Qed.
    outside the node array (the real code dies with SIGSEGV in get_field) *)
 Example ex2_ff_defect : xbw_subPathSearch ex2_d [0; 98; 255] = Some (7, 4294967295) /\ xbw_locate ex2_d [98; 255] = None.
 Proof. vm_compute. auto. Qed.
+
+(* XBW dictionary, second part: navigation downward and the prefix iterators (XBWFullProofs.v).
+   To be appended to Properties_xbw.v (needs: From LibCSD Require Import XBWFullProofs. and Permutation). *)
+
+(* 1. navigation downward: getChildren of every node other than root2 whose label is not the terminator is
+      exactly the interval of its children rows (non-empty) *)
+Theorem C01_xbw_getChildren : forall S d, valid_set S -> xbw_check S d = true ->
+  forall n k c, nthN (rows_of (trie_blocks S)) n = Some (k, c) -> 1 <= n -> c <> 255 ->
+  exists ini fin, xbw_getChildren d n = Some (ini, fin) /\ ini <= fin /\
+    forall i k' c', nthN (rows_of (trie_blocks S)) i = Some (k', c') -> (ini <= i <= fin <-> k' = c :: k).
+Proof. first [exact XBW_getChildren_spec | intros S d _; exact (XBW_getChildren_spec S d)]. Qed.
+Print Assumptions C01_xbw_getChildren.
+
+(* 3a. locatePrefix: the ID stream is exactly the IDs of the members with the prefix, each once; the client
+       loop with cap = 3 + |S| ends without MORE; no fuel exhaustion, no read outside the arrays *)
+Theorem C04_xbw_locatePrefix : forall S d, valid_set S -> xbw_check S d = true ->
+  forall p, p <> [] -> Forall qchar p ->
+  exists ids, xbw_locatePrefix d p (3 + length S) = Some (ids, false) /\ NoDup ids /\
+    forall id, In id ids <-> exists s, In s S /\ is_prefix p s = true /\ id = spec_locate (xbw_order S) s.
+Proof. first [exact XBW_locatePrefix_spec | intros S d _; exact (XBW_locatePrefix_spec S d)]. Qed.
+Print Assumptions C04_xbw_locatePrefix.
+
+(* 2. extractPrefix of the current tree: NULL exactly when no member has the prefix ... *)
+Theorem C04_xbw_extractPrefix_null_iff : forall S d, valid_set S -> xbw_check S d = true ->
+  forall p cap, p <> [] -> Forall qchar p ->
+  (xbw_extractPrefix_api d p cap = Some None <-> forall s, In s S -> is_prefix p s = false).
+Proof. first [exact XBW_extractPrefix_api_null_iff | intros S d _; exact (XBW_extractPrefix_api_null_iff S d)]. Qed.
+Print Assumptions C04_xbw_extractPrefix_null_iff.
+
+(* ... and otherwise the pattern is at most as long as the longest member, so the constructor's
+   strncpy(str, prefix, prefixLen) into maxlength+1 bytes is within bounds: for a pattern of ANY length the
+   overflow guard of the model never fires *)
+Theorem C04_xbw_extractPrefix_no_overflow : forall S d, valid_set S -> xbw_check S d = true ->
+  forall p cap, p <> [] -> Forall qchar p ->
+  exists l r, xbw_subPathSearch d (0 :: p) = Some (l, r) /\
+    ((r < l /\ (forall s, In s S -> is_prefix p s = false) /\ xbw_extractPrefix_api d p cap = Some None) \/
+     (l <= r /\ (exists s, In s S /\ is_prefix p s = true) /\ lenN p <= spec_maxlen S /\
+      (x_maxlength d + 1 <? lenN p) = false /\
+      xbw_extractPrefix_api d p cap = option_map Some (sit_drain d p cap (xit_new l r)))).
+Proof. first [exact XBW_extractPrefix_api_no_overflow | intros S d _; exact (XBW_extractPrefix_api_no_overflow S d)]. Qed.
+Print Assumptions C04_xbw_extractPrefix_no_overflow.
+
+(* 3b. extractPrefix of the current tree, every pattern length: exactly the members with the prefix (each
+       once, with its length), NULL when there is none *)
+Theorem C04_xbw_extractPrefix : forall S d, valid_set S -> xbw_check S d = true ->
+  forall p, p <> [] -> Forall qchar p ->
+  ((exists s, In s S /\ is_prefix p s = true) ->
+     exists L, xbw_extractPrefix_api d p (3 + length S) = Some (Some (L, false)) /\
+       Permutation (map fst L) (filter (is_prefix p) S) /\ forall s n, In (s, n) L -> n = lenN s) /\
+  ((forall s, In s S -> is_prefix p s = false) -> xbw_extractPrefix_api d p (3 + length S) = Some None).
+Proof. first [exact XBW_extractPrefix_api_spec | intros S d _; exact (XBW_extractPrefix_api_spec S d)]. Qed.
+Print Assumptions C04_xbw_extractPrefix.
+
+(* the iterator without the NULL guard (the statement XBWProofs.v kept as a definition) *)
+Theorem C04_xbw_extractPrefix_iterator : forall S d p, valid_set S -> xbw_check S d = true ->
+  p <> [] -> Forall qchar p -> lenN p <= spec_maxlen S + 2 ->
+  exists l, xbw_extractPrefix d p (3 + length S) = Some (l, false) /\
+    Permutation (map fst l) (filter (is_prefix p) S) /\ forall s n, In (s, n) l -> n = lenN s.
+Proof. exact xbw_extractPrefix_spec_full_proved. Qed.
+Print Assumptions C04_xbw_extractPrefix_iterator.
+
+(* every cap of the client loop: the first [cap] items of ONE duplicate-free enumeration of exactly the members
+   with the prefix, and MORE iff some are left (so: never a fuel exhaustion / wild read, whatever the cap) *)
+Theorem C04_xbw_locatePrefix_any_cap : forall S d, valid_set S -> xbw_check S d = true ->
+  forall p, p <> [] -> Forall qchar p ->
+  exists ids, NoDup ids /\ (length ids <= length S)%nat /\
+    (forall id, In id ids <-> exists s, In s S /\ is_prefix p s = true /\ id = spec_locate (xbw_order S) s) /\
+    forall cap, xbw_locatePrefix d p cap = Some (firstn cap ids, (cap <? length ids)%nat).
+Proof. first [exact XBW_locatePrefix_cap | intros S d _; exact (XBW_locatePrefix_cap S d)]. Qed.
+Print Assumptions C04_xbw_locatePrefix_any_cap.
+
+Theorem C04_xbw_extractPrefix_any_cap : forall S d, valid_set S -> xbw_check S d = true ->
+  forall p, p <> [] -> Forall qchar p -> (exists s, In s S /\ is_prefix p s = true) ->
+  exists L, Permutation (map fst L) (filter (is_prefix p) S) /\ (forall s n, In (s, n) L -> n = lenN s) /\
+    forall cap, xbw_extractPrefix_api d p cap = Some (Some (firstn cap L, (cap <? length L)%nat)).
+Proof. first [exact XBW_extractPrefix_api_cap | intros S d _; exact (XBW_extractPrefix_api_cap S d)]. Qed.
+Print Assumptions C04_xbw_extractPrefix_any_cap.
+
+(* ---- the hypotheses are satisfiable, the conclusions non-trivial: the real dump of {"ab","b"} ---- *)
+Example ex2_rows : rows_of (trie_blocks ex2_S) =
+  [([0], 0); ([0], 0); ([0; 0], 97); ([0; 0], 98); ([97; 0; 0], 98); ([98; 0; 0], 255); ([98; 97; 0; 0], 255)].
+Proof. vm_compute. reflexivity. Qed.
+(* root -> {a, b}; a -> {ab}; ab -> {its terminator leaf}; b -> {its terminator leaf} *)
+Example ex2_children : xbw_getChildren ex2_d 1 = Some (2, 3) /\ xbw_getChildren ex2_d 2 = Some (4, 4) /\
+                       xbw_getChildren ex2_d 4 = Some (6, 6) /\ xbw_getChildren ex2_d 3 = Some (5, 5).
+Proof. vm_compute. auto. Qed.
+Example ex2_locatePrefix : xbw_locatePrefix ex2_d [97] (3 + length ex2_S) = Some ([2], false) /\
+                           xbw_locatePrefix ex2_d [98] (3 + length ex2_S) = Some ([1], false) /\
+                           xbw_locatePrefix ex2_d [97; 98] (3 + length ex2_S) = Some ([2], false) /\
+                           xbw_locatePrefix ex2_d [99] (3 + length ex2_S) = Some ([], false) /\
+                           spec_locate (xbw_order ex2_S) [97; 98] = 2 /\ spec_locate (xbw_order ex2_S) [98] = 1.
+Proof. vm_compute. repeat split. Qed.
+Example ex2_extractPrefix_api :
+  xbw_extractPrefix_api ex2_d [97] (3 + length ex2_S) = Some (Some ([([97; 98], 2)], false)) /\
+  xbw_extractPrefix_api ex2_d [98] (3 + length ex2_S) = Some (Some ([([98], 1)], false)) /\
+  xbw_extractPrefix_api ex2_d [98; 98] (3 + length ex2_S) = Some None /\
+  (* a pattern longer than maxlength + 1 = 4 bytes: NULL, the iterator (and its strncpy) is not reached *)
+  xbw_extractPrefix_api ex2_d [97; 98; 97; 98; 97; 98] (3 + length ex2_S) = Some None /\
+  xbw_extractPrefix ex2_d [97; 98; 97; 98; 97; 98] (3 + length ex2_S) = None.
+Proof. vm_compute. repeat split. Qed.
+
+(* ---- a set with shared prefixes: the real dump of {"a","ab","abc","abd","b"} (`xbw_build 61 6162 616263 616264 62`);
+   the BFS order of the streams is the one the real code prints:
+     q xbw locatePrefix 61 = ids 3 4 5 1        q xbw extractPrefix 61 = strs 6162/2/2 616263/3/3 616264/3/3 61/1/1
+     q xbw locatePrefix 6162 = ids 4 5 3        q xbw extractPrefix 63 = NULL      q xbw extractPrefix 61^9 = NULL *)
+Definition ex3_S : list str := [[97]; [97; 98]; [97; 98; 99]; [97; 98; 100]; [98]].
+Definition ex3_d : xbw :=
+  match xbw_load 12 (ex_mapping [(0, 1); (97, 2); (98, 3); (99, 4); (100, 5); (255, 6); (256, 7)])
+          [1; 1; 2; 3; 3; 6; 6; 4; 5; 6; 6; 6]
+          [false; true; false; true; false; true; true; false; false; true; true; true]
+          [true; false; false; false; true; false; true; false; false; false; true; true; true] 5 4 with
+  | Some d => d
+  | None => mk_xbw 0 0 [] [] [] [] [] [] 0 0
+  end.
+Example ex3_valid : valid_set_b ex3_S = true. Proof. vm_compute. reflexivity. Qed.
+Example ex3_check : xbw_check ex3_S ex3_d = true. Proof. vm_compute. reflexivity. Qed.
+Example ex3_order : xbw_order ex3_S = [[97]; [98]; [97; 98]; [97; 98; 99]; [97; 98; 100]]. Proof. vm_compute. reflexivity. Qed.
+Example ex3_children : xbw_getChildren ex3_d 1 = Some (2, 3) /\ xbw_getChildren ex3_d 2 = Some (4, 5) /\
+                       xbw_getChildren ex3_d 4 = Some (7, 9) /\ xbw_getChildren ex3_d 7 = Some (10, 10).
+Proof. vm_compute. auto. Qed.
+Example ex3_locatePrefix :
+  xbw_locatePrefix ex3_d [97] (3 + length ex3_S) = Some ([3; 4; 5; 1], false) /\
+  xbw_locatePrefix ex3_d [97; 98] (3 + length ex3_S) = Some ([4; 5; 3], false) /\
+  xbw_locatePrefix ex3_d [98] (3 + length ex3_S) = Some ([2], false) /\
+  xbw_locatePrefix ex3_d [99] (3 + length ex3_S) = Some ([], false) /\
+  xbw_locatePrefix ex3_d [97] 2 = Some ([3; 4], true).
+Proof. vm_compute. repeat split. Qed.
+Example ex3_extractPrefix :
+  xbw_extractPrefix_api ex3_d [97] (3 + length ex3_S) =
+    Some (Some ([([97; 98], 2); ([97; 98; 99], 3); ([97; 98; 100], 3); ([97], 1)], false)) /\
+  xbw_extractPrefix_api ex3_d [99] (3 + length ex3_S) = Some None /\
+  xbw_extractPrefix_api ex3_d [97; 97; 97; 97; 97; 97; 97; 97; 97] (3 + length ex3_S) = Some None.
+Proof. vm_compute. repeat split. Qed.
